@@ -3,3 +3,4 @@ import PyhfGen.InterpMulti
 import PyhfGen.Infer
 import PyhfGen.Model
 import PyhfGen.Prob
+import PyhfGen.Ws
